@@ -146,6 +146,8 @@ struct Net {
     rng: Arc<Mutex<Rng>>,
     progress: u64,
     foreign_events: usize,
+    /// substream requests whose negotiation has not finished yet: (connection id, requested by side a, requester)
+    pending_neg: Vec<(usize, bool, bool)>,
 }
 
 impl Net {
@@ -172,6 +174,7 @@ impl Net {
             rng: Arc::new(Mutex::new(Rng::new(seed ^ 0xabcdef))),
             progress: 0,
             foreign_events: 0,
+            pending_neg: vec![],
         }
     }
 
@@ -295,33 +298,11 @@ impl Net {
                     self.nodes[me].handler_event(other, id, ev);
                 }
                 Poll::Ready(ConnectionHandlerEvent::OutboundSubstreamRequest { protocol }) => {
-                    self.progress += 1;
-                    let (up, info) = protocol.into_upgrade();
-                    trace!("  handler node{me} conn{id} requests a {} stream", if matches!(info, StreamRequester::Client) { "client" } else { "server" });
-                    let wanted: Vec<String> = up.protocol_info().map(|p| p.as_ref().to_string()).collect();
-                    let c = &mut self.conns[idx];
-                    let remote = if side_a { &mut c.hb } else { &mut c.ha };
-                    let offered: Vec<String> = remote.listen_protocol().upgrade().protocol_info().map(|p| p.as_ref().to_string()).collect();
-                    if wanted == offered {
-                        // multistream-select agrees: a fresh substream, one end each
-                        let st = Arc::new(Mutex::new(PipeState::default()));
-                        handler_push_inbound_stream(remote, Box::new(PipeReader(st.clone(), self.rng.clone())));
-                        let local = if side_a { &mut c.ha } else { &mut c.hb };
-                        match info {
-                            StreamRequester::Client => handler_set_client_stream(local, Box::new(PipeWriter(st.clone()))),
-                            StreamRequester::Server => handler_set_server_stream(local, Box::new(PipeWriter(st.clone()))),
-                        }
-                        c.pipes.push(st);
-                    } else {
-                        // multistream-select finds no common protocol: DialUpgradeError. The retry of the handler is
-                        // left for a later poll (a negotiation takes a round trip) and is not counted as progress.
-                        let local = if side_a { &mut c.ha } else { &mut c.hb };
-                        if let StreamRequester::Client = info {
-                            handler_client_stream_failed(local);
-                        }
-                        self.progress -= 1;
-                        break;
-                    }
+                    let (_up, info) = protocol.into_upgrade();
+                    let is_client = matches!(info, StreamRequester::Client);
+                    trace!("  handler node{me} conn{id} requests a {} stream", if is_client { "client" } else { "server" });
+                    // the negotiation takes a round trip: it completes at a later scheduling step
+                    self.pending_neg.push((id, side_a, is_client));
                 }
                 Poll::Ready(_) => {}
                 Poll::Pending => break,
@@ -339,7 +320,38 @@ impl Net {
         }
     }
 
+    /// finish the oldest (or the k-th) pending substream negotiation
+    fn complete_negotiation(&mut self, k: usize) {
+        let (id, side_a, is_client) = self.pending_neg.remove(k);
+        let Some(idx) = self.conns.iter().position(|c| c.id == id) else { return };
+        let c = &mut self.conns[idx];
+        let (local, remote) = if side_a { (&mut c.ha, &mut c.hb) } else { (&mut c.hb, &mut c.ha) };
+        let wanted: Vec<String> = local.listen_protocol().upgrade().protocol_info().map(|p| p.as_ref().to_string()).collect();
+        let offered: Vec<String> = remote.listen_protocol().upgrade().protocol_info().map(|p| p.as_ref().to_string()).collect();
+        // (a node requests the same protocol name it listens on: C20_single_name, observed by the builder engine)
+        if wanted == offered {
+            let st = Arc::new(Mutex::new(PipeState::default()));
+            handler_push_inbound_stream(remote, Box::new(PipeReader(st.clone(), self.rng.clone())));
+            if is_client {
+                handler_set_client_stream(local, Box::new(PipeWriter(st.clone())));
+            } else {
+                handler_set_server_stream(local, Box::new(PipeWriter(st.clone())));
+            }
+            c.pipes.push(st);
+            self.progress += 1;
+        } else if is_client {
+            // multistream-select finds no common protocol: DialUpgradeError; a failed negotiation is not progress
+            // (the handler retries until its 5 s start timeout, which needs time to pass)
+            handler_client_stream_failed(local);
+        }
+    }
+
     fn step(&mut self, rng: &mut Rng) {
+        if !self.pending_neg.is_empty() && rng.chance(1, 3) {
+            let k = rng.usize(self.pending_neg.len());
+            self.complete_negotiation(k);
+            return;
+        }
         match rng.below(4) {
             0 => {
                 let i = rng.usize(self.nodes.len());
@@ -371,6 +383,9 @@ impl Net {
                     self.release(i, 0);
                 }
                 self.poll_behaviour(i);
+            }
+            while !self.pending_neg.is_empty() {
+                self.complete_negotiation(0);
             }
             let mut k = 0;
             while k < self.conns.len() {
